@@ -17,7 +17,18 @@ AutoEvaluator
   * writes equivalent numpy spellings the same way: x.max() / np.max(x) (max, min, sum, any, all, var, std, mean, argmax, argmin),
     a.dot(b) / a @ b / np.dot(a, b), np.diff(x) / x[1:] - x[:-1], np.square(x) / x * x, x.T / np.transpose(x), len(x) / x.shape[0],
     np.hstack / np.concatenate, X[j][k] / X[j, k] for scalar j, zip(b[:-1], b[1:]) element k / b[k], b[k + 1];
-  * follows helpers of the `inline` table with the same machinery (sub-evaluations share the trace).
+  * follows helpers of the `inline` table with the same machinery (sub-evaluations share the trace), wherever they are called from: a helper
+    of another module resolves its own bare-name calls and constants in *its* module; functions defined inside the evaluated function
+    (closures), lambdas bound to a name, chosen by a ternary or handed to map() are helpers too.  What a helper does to the arrays it is
+    handed lands in the caller's arrays: `row[k] = v` and the in-place `row *= a` on a parameter bound to X[j] are stores into X[(j, k)] /
+    X[j] (a view taken by a plain assignment `row = X[j]` behaves the same; masks and index arrays computed by calls are copies), `arr += x`
+    on a whole array of the caller is a new version of that array for the caller, and `X[j] = helper(...)` with a freshly allocated row filled
+    element by element is also listed as the stores X[j, k] = ... (XSem.cells);
+  * element-wise constructs have one value: zip / enumerate / range / map / list / tuple / np.array / np.fromiter / [*xs] are indexed and
+    iterated element by element (`for a, c in list(zip(A, C))` binds A[k], C[k]; map(f, A, C) is [f(a, c) for a, c in zip(A, C)]); a
+    comprehension over a literal sequence is the tuple of its elements; `xs = []; for ...: xs.append(v)` is the comprehension;
+    X[j, :] is X[j]; X[len(X) - k] is X[-k]; f(*g(...), x) fills the leading parameters of lfilter-like callees;
+    np.full(n, True / False / c) is the constant like np.ones / np.zeros; `pv = PV` for two arrays is a second name, not a new array.
 
 `degree(...)` computes the degree of homogeneity of a value under a rescaling of designated roots (dimensional analysis).
 """
